@@ -21,6 +21,7 @@ class Cfg:
         self.body = fn.body
         self.ev = ev or Ev(prog, fn)
         self._edge_dom = {}
+        self._guards = {}
         self._atoms = {}
         self._reach = {}
 
@@ -69,6 +70,30 @@ class Cfg:
 
     def loops_containing(self, b):
         return [h for h in self.body.loop_heads() if b in self.body.loop_body(h)]
+
+    def loop_exit_edges(self, head):
+        """edges leaving the natural loop of `head` (cleanup and unreachable targets ignored)"""
+        body = self.body.loop_body(head)
+        out = []
+        for b in sorted(body):
+            for s in self.body.succs(b):
+                if s not in body and not self.body.blocks[s].cleanup and self.body.blocks[s].term.k != "unreachable":
+                    out.append((b, s))
+        return out
+
+    def loop_runs_to_completion(self, head):
+        """the loop can only be left because its iterator is exhausted: the single exit edge is
+        the `None` arm of the switch on `Iterator::next`"""
+        exits = self.loop_exit_edges(head)
+        if len(exits) != 1:
+            return False, exits
+        b, s = exits[0]
+        t = self.body.blocks[b].term
+        if t.k != "switch":
+            return False, exits
+        atoms = self.edge_atoms(b, s)
+        ok = any(a[0] == "variant" and a[2] == ("None",) and a[1][0] == "call" and a[1][4] == "next" for a in atoms)
+        return ok, exits
 
     # ------------------------------------------------------------------ edge dominance
     def controlling_edges(self, b):
@@ -176,13 +201,50 @@ class Cfg:
         return atoms
 
     def guards(self, b):
-        """conjunction of atoms that hold on every path reaching block b"""
+        """conjunction of atoms that hold on every path reaching block b.  When b is
+        additionally conditioned by something no single branch edge captures (a
+        disjunction `if a || b`, an early `break`/`return` on some path) the synthetic
+        atom ("opaque", ..) is appended, so that `not guards` really means unconditional."""
+        if b in self._guards:
+            return self._guards[b]
         out = []
-        for (s, tgt) in self.controlling_edges(b):
+        edges = self.controlling_edges(b)
+        for (s, tgt) in edges:
             for a in self.edge_atoms(s, tgt):
                 if a not in out:
                     out.append(a)
+        if self.bypassable(b, edges):
+            out.append(("opaque", "reached only on some of the paths its branch conditions allow"))
+        self._guards[b] = out
         return out
+
+    def bypassable(self, b, edges):
+        """can execution, once past the last controlling edge of b (or from entry), finish
+        the function / the current loop iteration without executing b?"""
+        dom = self.body.dominators()
+        start = 0
+        if edges:
+            # the controlling edge closest to b: its source is dominated by all the others
+            best = max(edges, key=lambda e: len(dom.get(e[0], ())))
+            start = best[1]
+        if start == b:
+            return False
+        reach = self.reach_from(start, cut_blocks=[b])
+        if b not in self.reach_from(start):
+            return False
+        rets = set(self.body.return_blocks())
+        if reach & rets:
+            return True
+        # inside a loop: a path that gets back to the loop head without passing b
+        for h in self.loops_containing(b):
+            body = self.body.loop_body(h)
+            if start in body:
+                for x in reach:
+                    if x in body and h in self.body.succs(x) and (x != start or True):
+                        # a back edge reachable without b
+                        if self.body.dominates(h, x):
+                            return True
+        return False
 
     # ------------------------------------------------------------------ feasibility refinement
     def immutable_subject(self, e):
@@ -319,6 +381,8 @@ def render_atom(a):
         return "%s%s" % ("" if a[2] else "!", render(a[1]))
     if k == "intin":
         return "%s in %s" % (render(a[1]), list(a[2]))
+    if k == "opaque":
+        return "<%s>" % a[1]
     if k == "intnotin":
         return "%s not in %s" % (render(a[1]), list(a[2]))
     return repr(a)
